@@ -577,6 +577,7 @@ def run(ctx):
     c = ctx.counters
     if not ctx.violations and not ctx.known_printed:
         ctx.require(c.get('schedules', 0) >= 1000 and c.get('returned_with_response', 0) >= 500, 'schedules run and responses observed')
+        ctx.require(c.get('conf_accounting_scenarios', 0) >= 30, 'configuration accounting scenarios')
 
 
 # ------------------------------------------------------------------ HTTP transport (request granularity)
